@@ -431,6 +431,8 @@ def _mutations(spec):
   conds = {int(k): v for k, v in spec["conds"].items()}
   out = [("conn", a, c) for a in range(n) for c in range(n) if a != c and (a, c) not in edges]
   out += [("cnew", a) for a in range(n)]
+  out += [("node",)] + [("cnewc", a, j) for a in range(n) for j in range(b)]
+  out += [("bindold", i, m, ss) for i in range(b) for m in range(n) for ss in ([()] + [(j,) for j in range(b) if j != i])]
   for m in range(n):
     out += [("cond", m, j) for j in range(b) if conds.get(m) != j]
     if m in conds:
@@ -448,6 +450,13 @@ def _mutate(g, op):
     g.nodes[op[1]].ConnectTo(g.nodes[op[2]])
   elif k == "cnew":
     g.nodes.append(g.nodes[op[1]].ConnectNew("new"))
+  elif k == "node":
+    g.nodes.append(g.prog.NewCFGNode("new"))
+  elif k == "cnewc":
+    g.nodes.append(g.nodes[op[1]].ConnectNew("new", g.bobjs[op[2]]))
+  elif k == "bindold":   # AddBinding with data the variable already holds: a further origin through the variable
+    i = op[1]
+    g.vobjs[g.vars[i]].AddBinding(g.bobjs[i].data, [g.bobjs[j] for j in op[3]], g.nodes[op[2]])
   elif k == "cond":
     g.nodes[op[1]].condition = None if op[2] is None else g.bobjs[op[2]]
   elif k == "origin":
@@ -541,8 +550,8 @@ def run(rep, tier, seed):
     rep.outcome("graph-mutations", mtot["mutations"])
     rep.cov["mutation_after_warm_cache_phase"] = dict(
         mtot, what="every graph of the families (see mut_items) x every single mutation of the alphabet (edge between "
-                   "any two nodes, new node, condition set/changed/cleared, new origin, new binding, PasteBinding) "
-                   "applied after ALL queries were asked; all queries re-asked and compared with a never-queried replica")
+                   "any two nodes, new node, unconnected new node, new node with a condition, condition set/changed/cleared, new origin, new binding, "
+                   "AddBinding of existing data, PasteBinding) applied after ALL queries were asked; all queries re-asked and compared with a never-queried replica")
     states += gtot["queries"]
     trans += gtot["queries"]
     rep.outcome("graph-queries-true", gtot["true"])
